@@ -53,7 +53,7 @@ func runC14(c *Ctx, r *Report, tier string) {
 	// ---- LINENO
 	var counter *ssa.Phi
 	var bump ssa.Value
-	loops := loopsOf(ri)
+	loops := c.loopsDeep(ri)
 	var mainLoop *Loop
 	for _, l := range loops {
 		for _, in := range l.Header.Instrs {
@@ -172,7 +172,7 @@ func runC14(c *Ctx, r *Report, tier string) {
 	// ---- CLASSIFY
 	lineT := "call:strings.TrimSpace(call:readFullLine("
 	var handlers []ssa.Instruction
-	for _, b := range ri.Blocks {
+	for _, b := range c.blocks(ri) {
 		if iff, ok := b.Instrs[len(b.Instrs)-1].(*ssa.If); ok {
 			l := c.cond(iff.Cond)
 			if strings.HasPrefix(l.Term, "eq(91, idx("+lineT) && len(handlers) == 0 {
@@ -180,7 +180,7 @@ func runC14(c *Ctx, r *Report, tier string) {
 			}
 		}
 	}
-	for _, b := range ri.Blocks {
+	for _, b := range c.blocks(ri) {
 		if iff, ok := b.Instrs[len(b.Instrs)-1].(*ssa.If); ok {
 			if l := c.cond(iff.Cond); strings.HasPrefix(l.Term, "has("+lineT) && strings.HasSuffix(l.Term, `, "=")`) {
 				handlers = append(handlers, iff)
@@ -202,7 +202,7 @@ func runC14(c *Ctx, r *Report, tier string) {
 		r.Check(a && b && d, "CLASSIFY", fname, what+" only for non-blank, non-comment lines", c.ipos(h), "REQ(non-empty) ∧ REQ(first byte != ';') ∧ REQ(first byte != '#')", fmt.Sprintf("non-empty=%v not-';'=%v not-'#'=%v", a, b, d))
 	}
 	// names and values are trimmed
-	for _, b := range ri.Blocks {
+	for _, b := range c.blocks(ri) {
 		for _, in := range b.Instrs {
 			al, ok := in.(*ssa.Alloc)
 			if !ok || typeName(al.Type()) != "iniValue" {
@@ -244,7 +244,7 @@ func runC14(c *Ctx, r *Report, tier string) {
 	rname := c.fname(rfl)
 	var acc *ssa.Phi
 	var rl *Loop
-	for _, l := range loopsOf(rfl) {
+	for _, l := range c.loopsDeep(rfl) {
 		for _, in := range l.Header.Instrs {
 			if p, ok := in.(*ssa.Phi); ok && isSliceT(p.Type()) {
 				acc, rl = p, l
@@ -302,9 +302,9 @@ func runC14(c *Ctx, r *Report, tier string) {
 		}
 	}
 	// IgnoreUnknown tests: the ignoring edge must stay inside the innermost loop
-	iloops := loopsOf(ip)
+	iloops := c.loopsDeep(ip)
 	nIgn := 0
-	for _, b := range ip.Blocks {
+	for _, b := range c.blocks(ip) {
 		iff, ok := b.Instrs[len(b.Instrs)-1].(*ssa.If)
 		if !ok {
 			continue
